@@ -117,15 +117,15 @@ PROPS = {
     },
     "C05": {
         "level": "model_checking",
-        "quick": {"kani": [G("c05-br", "egglog-bridge", ["c05_bridge_"], jobs=6, ht=1200, wall=3000)]},
-        "thorough": {"kani": [G("c05-br", "egglog-bridge", ["c05_bridge_", "c05t_"], jobs=6, ht=3600, wall=10800)]},
+        "quick": {"kani": [G("c05-br", "egglog-bridge", ["c05_bridge_", "c01_bridge_unionid"], jobs=6, ht=1200, wall=3000)]},
+        "thorough": {"kani": [G("c05-br", "egglog-bridge", ["c05_bridge_", "c05t_", "c01_bridge_unionid"], jobs=6, ht=3600, wall=10800)]},
         "rule": ("one Kani harness = one solver query over all operand values (cur, new, ts: arbitrary u32) and all results of nested "
                  "calls (arbitrary Option<u32>) for one arm / nesting shape of the real merge-expression interpreter "
                  "ResolvedMergeFn::run; non-trivial iff every `witness:` cover is SATISFIED"),
         "assumptions": [
-            "kernel level: the interpreter of compiled merge expressions is exact for the arms Old, New, Const, AssertEq (= :no-merge), "
-            "UnionId (under C01) and Primitive (nesting depth 2 in the thorough tier); the Function arm is NOT decided (its harness did not "
-            "finish under CBMC); THAT the merge is applied on every collision (the four collision "
+            "kernel level, leaf arms only: the interpreter of compiled merge expressions is exact for Old, New, Const and AssertEq "
+            "(= :no-merge: the panic function runs iff the two values differ, the old value is kept) and UnionId (under C01); the Primitive and "
+            "Function arms are NOT decided (every harness that recurses into an argument vector failed to finish under CBMC); THAT the merge is applied on every collision (the four collision "
             "paths of SortedWritesTable, MergeFn::to_callback, order / batching / thread independence of the fold) is NOT covered",
             "ExecutionState::{stage_insert, call_external_func} and TableAction::lookup_or_insert are replaced by recorders returning "
             "arbitrary values (the real ones reach ArcSwap / hash tables)",
